@@ -176,6 +176,12 @@ func propertyFailsL(prop, op, res, lean string) (why string) {
 				return "Marshal(list) is not the concatenation of the members' encodings"
 			}
 		}
+		if (base == "uenc" || base == "cenc") && hasPrefix(lean, "ok") && res != lean {
+			// the model's list encoders are the concatenation of its packet encoders, proved equal to the RFC renderings
+			if ps := getPackets(NewR(args)); allWF(ps) {
+				return "Marshal of a list differs from the concatenation of its members' RFC layouts"
+			}
+		}
 		if base == "encspec" && hasPrefix(lean, "ok") && res != lean {
 			p := getBody(NewR(args), kind)
 			if wfPacket(p) {
@@ -193,6 +199,17 @@ func propertyFailsL(prop, op, res, lean string) (why string) {
 	case "C04":
 		if (base == "dec" || base == "udec" || base == "decv") && hasPrefix(res, "panic") {
 			return "decoder panicked"
+		}
+		if base == "cdec" {
+			// CompoundPacket.Unmarshal is a decoder too: what it accepts it must read as the datagram decoder does
+			b := NewR(args).H()
+			qs, err := rtcp.Unmarshal(exactCap(b))
+			if (err == nil && specValidCompound(qs)) != isOK {
+				return "CompoundPacket.Unmarshal rejects a valid compound encoding (or accepts an invalid one)"
+			}
+			if isOK && err == nil && res != "ok "+packetsTokens(qs) {
+				return "CompoundPacket.Unmarshal returns other field values than the datagram decoder for the same bytes"
+			}
 		}
 		if base == "rto" && kind != "CCFB" && kind != "SLI" {
 			// Marshal output is the RFC encoding (C03; not so for CCFB and SLI, whose deviations are listed and whose
@@ -259,6 +276,15 @@ func propertyFailsL(prop, op, res, lean string) (why string) {
 			}
 		}
 	case "C05":
+		if base == "cenc" && isOK {
+			sum := 0
+			for _, p := range getPackets(NewR(args)) {
+				sum += p.MarshalSize()
+			}
+			if n := (len(res) - 3) / 2; sum <= 262144 && (n != sum || n%4 != 0) {
+				return fmt.Sprintf("CompoundPacket.Marshal wrote %d octets, its members' MarshalSize sum to %d", n, sum)
+			}
+		}
 		if base == "framed" && hasPrefix(res, "ok ") {
 			p := getBody(NewR(args), kind)
 			if kind == "TWCC" && !twccConsistent(p.(*rtcp.TransportLayerCC)) {
@@ -618,6 +644,11 @@ func propertyFailsL(prop, op, res, lean string) (why string) {
 	case "C13":
 		if base == "dec" && kind == "TWCC" && isOK {
 			return twccOracle(NewR(args).H(), res[3:])
+		}
+		if base == "udec" && hasPrefix(res, "ok 1 TWCC ") { // the same packet through the datagram decoder
+			if b := NewR(args).H(); countFrames(b) == 1 {
+				return twccOracle(b, res[len("ok 1 TWCC "):])
+			}
 		}
 	case "C14":
 		if base == "rembto" {
